@@ -240,6 +240,34 @@ def ok_C05(ctx, snap):
     if o["f_activation"] > 0 and any((ve["activation"] or 0) != 0 for ve in m["vehicles"]):
         exp["vehicle_activation_penalty"] = o["f_activation"] * sum(
             (m["vehicles"][v]["activation"] or 0) for v, r in snap["routes"].items() if len(r) > 2)
+    # early / late arrival, min stops, stop balance (installed by the factory under the conditions noted)
+    n_in = len(m["stops"])
+    tgt = lambda x: m["stops"][x].get("target") if x < n_in else None  # noqa: E731
+    if o.get("f_early", 0) > 0 and any(st_.get("target") is not None and st_.get("early_pen", 0) != 0 for st_ in m["stops"]):
+        val = 0
+        for v, r in snap["routes"].items():
+            sch = ctx.schedule(v, r)
+            for pos, x in list(enumerate(r))[1:-1]:
+                if tgt(x) is not None:
+                    val += m["stops"][x]["early_pen"] * max(0, tgt(x) - sch[pos][2])
+        exp["early_arrival_penalty"] = o["f_early"] * val
+    if o.get("f_late", 0) > 0 and any(st_.get("target") is not None and st_.get("late_pen", 0) != 0 for st_ in m["stops"]):
+        val = 0
+        for v, r in snap["routes"].items():
+            sch = ctx.schedule(v, r)
+            for pos, x in list(enumerate(r))[1:]:
+                if tgt(x) is not None:
+                    val += m["stops"][x]["late_pen"] * max(0, sch[pos][2] - tgt(x))
+        exp["late_arrival_penalty"] = o["f_late"] * val
+    if o.get("f_min_stops", 0) > 0 and any(ve.get("min_stops", 0) != 0 and ve.get("min_stops_pen", 0) != 0 for ve in m["vehicles"]):
+        val = 0
+        for v, r in snap["routes"].items():
+            ve, k = m["vehicles"][v], len(r) - 2
+            if k > 0 and ve.get("min_stops", 0) and ve.get("min_stops_pen", 0) and k < ve["min_stops"]:
+                val += ve["min_stops_pen"] * (ve["min_stops"] - k) ** 2
+        exp["min_stops"] = o["f_min_stops"] * val
+    if o.get("f_stop_balance", 0) > 0:
+        exp["stop_balance"] = o["f_stop_balance"] * max([len(r) - 2 for r in snap["routes"].values()] + [0])
     for k, v in exp.items():
         if snap["terms"].get(k, F(0)) != v:
             fails.append("objective term %s reported %s, recomputed from routes %s" % (k, snap["terms"].get(k, 0), v))
